@@ -274,11 +274,154 @@ class Program:
         missing = EXPECTED_MODULES - set(prog.modules)
         if missing:
             raise AnalysisError("modules vanished: %s" % sorted(missing))
+        prog._specialise_exception_params()
         for mi in prog.modules.values():
             prog._index_module(mi)
         prog._index_exception_factories()
         prog._index_forwarders()
         return prog
+
+    def _specialise_exception_params(self) -> None:
+        """A module-level function that raises the class it receives as a parameter (`def check(..., error): ... raise
+        error(...)`, a validation shared by two constructors that report with different classes) is replaced, before
+        anything is indexed, by one copy per class its call sites pass (`check__ValueError`), the parameter substituted
+        and the call sites redirected: what each caller can raise is then read off the copy it calls.  Done only when
+        every reference to the function is a direct call that names the class."""
+        import builtins
+        import copy as _copy
+
+        def is_exc_name(n: str) -> bool:
+            b = getattr(builtins, n, None)
+            if isinstance(b, type) and issubclass(b, BaseException):
+                return True
+            return n.endswith("Error") or n.endswith("Exception")
+
+        for mi in list(self.modules.values()):
+            for fn in [st for st in mi.tree.body if isinstance(st, ast.FunctionDef)]:
+                a = fn.args
+                if a.vararg or a.kwarg or a.posonlyargs:
+                    continue
+                names = [x.arg for x in a.args] + [x.arg for x in a.kwonlyargs]
+                raised = set()
+                for node in ast.walk(fn):
+                    if isinstance(node, ast.Raise) and node.exc is not None:
+                        e = node.exc.func if isinstance(node.exc, ast.Call) else node.exc
+                        if isinstance(e, ast.Name) and e.id in names:
+                            raised.add(e.id)
+                stored = {n.id for n in ast.walk(fn) if isinstance(n, ast.Name) and isinstance(n.ctx, (ast.Store, ast.Del))}
+                raised -= stored
+                if len(raised) != 1:
+                    continue
+                par = next(iter(raised))
+                # every reference to the function
+                sites = []  # (module, call node, local name)
+                ok = True
+                for mj in self.modules.values():
+                    local = None
+                    imp_stmt = None
+                    if mj is mi:
+                        local = fn.name
+                    for st in ast.walk(mj.tree):
+                        if isinstance(st, ast.ImportFrom) and st.level == 0 and st.module == mi.name:
+                            for al in st.names:
+                                if al.name == fn.name:
+                                    local, imp_stmt = al.asname or al.name, st
+                    if local is None:
+                        if any(isinstance(n, ast.Attribute) and n.attr == fn.name for n in ast.walk(mj.tree)):
+                            ok = False  # reached through a module object: not followed
+                        continue
+                    calls = {id(n.func): n for n in ast.walk(mj.tree) if isinstance(n, ast.Call) and isinstance(n.func, ast.Name) and n.func.id == local}
+                    for n in ast.walk(mj.tree):
+                        if isinstance(n, ast.Name) and n.id == local and isinstance(n.ctx, ast.Load) and id(n) not in calls:
+                            ok = False  # passed around as a value
+                    for c in calls.values():
+                        sites.append((mj, c, local, imp_stmt))
+                if not ok or not sites:
+                    continue
+                defaults = dict(zip([x.arg for x in a.args][len(a.args) - len(a.defaults):], a.defaults))
+                defaults.update({x.arg: d for x, d in zip(a.kwonlyargs, a.kw_defaults) if d is not None})
+                plan = []
+                for mj, c, local, imp_stmt in sites:
+                    if any(isinstance(x, ast.Starred) for x in c.args) or any(k.arg is None for k in c.keywords):
+                        ok = False
+                        break
+                    pos = [x.arg for x in a.args]
+                    expr = None
+                    where = None
+                    for k in c.keywords:
+                        if k.arg == par:
+                            expr, where = k.value, ("kw", k)
+                    if expr is None and par in pos and pos.index(par) < len(c.args):
+                        expr, where = c.args[pos.index(par)], ("pos", pos.index(par))
+                    if expr is None:
+                        expr = defaults.get(par)
+                    cname = expr.id if isinstance(expr, ast.Name) else expr.attr if isinstance(expr, ast.Attribute) else None
+                    if cname is None or not is_exc_name(cname):
+                        ok = False
+                        break
+                    plan.append((mj, c, local, imp_stmt, where, cname))
+                if not ok:
+                    continue
+                made: Dict[str, str] = {}
+                at = mi.tree.body.index(fn)
+                for cname in sorted({x[5] for x in plan}):
+                    clone = _copy.deepcopy(fn)
+                    clone.name = "%s__%s" % (fn.name, cname)
+                    ca = clone.args
+                    if par in [x.arg for x in ca.args]:
+                        i = [x.arg for x in ca.args].index(par)
+                        nd = len(ca.defaults)
+                        first_default = len(ca.args) - nd
+                        if i >= first_default:
+                            del ca.defaults[i - first_default]
+                        del ca.args[i]
+                    else:
+                        i = [x.arg for x in ca.kwonlyargs].index(par)
+                        del ca.kwonlyargs[i]
+                        del ca.kw_defaults[i]
+                    for n in ast.walk(clone):
+                        if isinstance(n, ast.Name) and n.id == par:
+                            n.id = cname
+                    made[cname] = clone.name
+                    at += 1
+                    mi.tree.body.insert(at, clone)
+                    # the class must be a name of the module the copy lives in: bring the caller's import along
+                    bound = getattr(builtins, cname, None) is not None or any(
+                        (isinstance(st, (ast.ClassDef, ast.FunctionDef)) and st.name == cname)
+                        or (isinstance(st, (ast.Import, ast.ImportFrom)) and any((al.asname or al.name) == cname for al in st.names))
+                        for st in mi.tree.body
+                    )
+                    if not bound:
+                        src = None
+                        for mj, _c, _l, _i, _w, cn in plan:
+                            if cn != cname:
+                                continue
+                            for st in mj.tree.body:
+                                if isinstance(st, ast.ImportFrom) and st.level == 0 and any((al.asname or al.name) == cname for al in st.names):
+                                    al = [x for x in st.names if (x.asname or x.name) == cname][0]
+                                    src = ast.ImportFrom(module=st.module, names=[ast.alias(name=al.name, asname=al.asname)], level=0)
+                                elif isinstance(st, ast.ClassDef) and st.name == cname:
+                                    src = ast.ImportFrom(module=mj.name, names=[ast.alias(name=cname, asname=None)], level=0)
+                            if src is not None:
+                                break
+                        if src is not None:
+                            ast.copy_location(src, fn)
+                            ast.fix_missing_locations(src)
+                            k = 0
+                            while k < len(mi.tree.body) and (isinstance(mi.tree.body[k], (ast.Import, ast.ImportFrom)) or (isinstance(mi.tree.body[k], ast.Expr) and isinstance(mi.tree.body[k].value, ast.Constant))):
+                                k += 1
+                            mi.tree.body.insert(k, src)
+                            at += 1
+                mi.tree.body.remove(fn)
+                for mj, c, local, imp_stmt, where, cname in plan:
+                    new_local = made[cname] if mj is mi else "%s__%s" % (local, cname)
+                    c.func.id = new_local
+                    if where is not None and where[0] == "kw":
+                        c.keywords.remove(where[1])
+                    elif where is not None:
+                        del c.args[where[1]]
+                    if imp_stmt is not None and not any((al.asname or al.name) == new_local for al in imp_stmt.names):
+                        imp_stmt.names.append(ast.alias(name=made[cname], asname=new_local if new_local != made[cname] else None))
 
     def _index_forwarders(self) -> None:
         """F is a forwarder of G when F's whole body is `return G(<F's own parameters, in order>)` (a method body moved
